@@ -8,7 +8,12 @@ from .models_calls import ufun, used, DATE_FIELD, DATE_RANGE, DIM
 
 MKUS = ufun('MKUS', Int, Int, Int, Int, Int, Int, Int, Int)   # civil fields -> microseconds
 L2U = ufun('L2U', Int, Int)                            # local naive reading -> UTC instant
-U2L = ufun('U2L', Int, Int)
+LOCOFF = ufun('LOCOFF', Int, Int)                     # UTC offset (microseconds) of the process time zone at a UTC instant
+
+
+def U2L(us):
+    """local naive reading of a UTC instant"""
+    return us + LOCOFF(us)
 ISOFMT = ufun('ISOFMT', Int, Int, Str)
 FROMISO_OK = ufun('FROMISO_OK', Str, Bool)
 FROMISO = ufun('FROMISO', Str, Int)
@@ -104,7 +109,7 @@ def date_call(ip, name, args, kwargs):
         from .models_ops import str_term
         st = str_term(ip, s)
         if ctx.branch(FROMISO_OK(st)):
-            return S(VDate(z3.IntVal(2), FROMISO(st)))
+            return S(VDate(z3.IntVal(2), FROMISO(st), ufun('FROMISO_OFF', Str, Int)(st)))
         raise_('ValueError', 'Invalid isoformat string')
     raise OutOfReach(f'{name}')
 
@@ -120,8 +125,8 @@ def date_method(ip, d, name, args, kwargs):
             raise_('AttributeError', "'datetime.date' object has no attribute 'astimezone'")
         if ctx.branch(kind == 1):
             ctx.assume(in_date_range(L2U(us)))
-            return S(VDate(z3.IntVal(2), L2U(us)))
-        return S(VDate(z3.IntVal(2), us))
+            return S(VDate(z3.IntVal(2), L2U(us), LOCOFF(L2U(us))))
+        return S(VDate(z3.IntVal(2), us, LOCOFF(us)))
     if name == 'replace':
         if 'tzinfo' in kwargs:
             tz = norm(ip, kwargs['tzinfo'])
@@ -129,9 +134,11 @@ def date_method(ip, d, name, args, kwargs):
                 raise OutOfReach('replace(tzinfo=<non None>)')
             used('aware.replace(tzinfo=None): the local naive reading U2L(instant); U2L(L2U(x)) = x for local times that exist')
             if ctx.branch(kind == 2):
-                ctx.assume(U2L(L2U(U2L(us))) == U2L(us))
-                ctx.assume(in_date_range(U2L(us)))
-                return S(VDate(z3.IntVal(1), U2L(us)))
+                # the wall-clock reading in the value's own zone
+                wall = z3.simplify(us + V.off(t))
+                ctx.assume(in_date_range(wall))
+                ctx.assume(L2U(U2L(us)) == us)
+                return S(VDate(z3.IntVal(1), wall))
             return S(VDate(kind, us))
         if 'microsecond' in kwargs:
             m = _int_arg(ip, kwargs['microsecond'], 'microsecond')
@@ -143,7 +150,7 @@ def date_method(ip, d, name, args, kwargs):
             for f in ('year', 'month', 'day', 'hour', 'minute', 'second'):
                 ctx.assume(DATE_FIELD[f](nus) == DATE_FIELD[f](us))
             ctx.assume(DATE_FIELD['microsecond'](nus) == m)
-            return S(VDate(kind, z3.simplify(nus)))
+            return S(VDate(kind, z3.simplify(nus), V.off(t)))
         raise OutOfReach('datetime.replace of other fields')
     if name == 'isoformat':
         used('isoformat(): ISOFMT(kind, instant) uninterpreted')
